@@ -34,6 +34,12 @@ func runC15(e *Env) {
 	}
 	ruleC15Table(e)
 	ruleC15Copy(e)
+	// the bounds and the probed dates are the days the caller named: New builds the UTC day it is given
+	ruleNewDeleg(e, "C15.new")
+	if a := newDateAbs(e); a != nil {
+		ruleFromTime(e, "C15.new", a)
+	}
+	e.S.Floor("C15.new", 7)
 	ruleWrap(e, "C15.wrap", "date")
 	e.S.Floor("C15.table", 20)
 	e.S.Floor("C15.copy", 4)
